@@ -14,6 +14,56 @@ pub static NEXT_ID: AtomicU32 = AtomicU32::new(1);
 pub static CLONE_PANIC: AtomicBool = AtomicBool::new(false);
 
 pub struct ClonePanic;
+thread_local! {
+    /// run once inside the next payload Clone::clone (a deterministic "scheduling point" inside the
+    /// library call for the protocol extraction)
+    pub static CLONE_HOOK: std::cell::RefCell<Option<Box<dyn FnOnce()>>> = const { std::cell::RefCell::new(None) };
+}
+/// when set, the next comparison / hash / format of an `A` payload panics (and clears the flag)
+pub static OBS_PANIC: AtomicBool = AtomicBool::new(false);
+pub struct ObsPanic;
+fn obs_fault() {
+    if OBS_PANIC.swap(false, Ordering::SeqCst) {
+        std::panic::panic_any(ObsPanic);
+    }
+}
+impl PartialEq for A {
+    fn eq(&self, o: &A) -> bool {
+        obs_fault();
+        self.val == o.val
+    }
+}
+impl Eq for A {}
+impl PartialOrd for A {
+    fn partial_cmp(&self, o: &A) -> Option<std::cmp::Ordering> {
+        obs_fault();
+        self.val.partial_cmp(&o.val)
+    }
+}
+impl Ord for A {
+    fn cmp(&self, o: &A) -> std::cmp::Ordering {
+        obs_fault();
+        self.val.cmp(&o.val)
+    }
+}
+impl std::hash::Hash for A {
+    fn hash<H: std::hash::Hasher>(&self, h: &mut H) {
+        obs_fault();
+        self.val.hash(h)
+    }
+}
+impl std::fmt::Debug for A {
+    fn fmt(&self, f: &mut std::fmt::Formatter) -> std::fmt::Result {
+        obs_fault();
+        write!(f, "A({})", self.val)
+    }
+}
+impl std::fmt::Display for A {
+    fn fmt(&self, f: &mut std::fmt::Formatter) -> std::fmt::Result {
+        obs_fault();
+        write!(f, "{}", self.val)
+    }
+}
 
 pub fn fresh_id() -> u32 {
     NEXT_ID.fetch_add(1, Ordering::Relaxed)
@@ -84,11 +134,14 @@ macro_rules! payload {
         impl Clone for $name {
             fn clone(&self) -> Self {
                 if CLONE_PANIC.swap(false, Ordering::SeqCst) {
-                    LOG.push(Ev::Clone { src: self.id, new: 0 });
+                    LOG.push(Ev::Clone { src: self.id, new: 0, tid: crate::ev::tid() });
                     std::panic::panic_any(ClonePanic);
                 }
                 let n = $name { magic: MAGIC, id: fresh_id(), val: self.val, pad: [0x11; $padlen] };
-                LOG.push(Ev::Clone { src: self.id, new: n.id });
+                if let Some(f) = CLONE_HOOK.with(|c| c.borrow_mut().take()) {
+                    f();
+                }
+                LOG.push(Ev::Clone { src: self.id, new: n.id, tid: crate::ev::tid() });
                 n
             }
         }
@@ -96,7 +149,7 @@ macro_rules! payload {
             fn drop(&mut self) {
                 let s = unsafe { Self::peek(self) };
                 if s.ok {
-                    LOG.push(Ev::Drop { id: s.id, addr: self as *const _ as usize });
+                    LOG.push(Ev::Drop { id: s.id, addr: self as *const _ as usize, tid: crate::ev::tid() });
                     unsafe { std::ptr::addr_of_mut!(self.magic).write_volatile(DEAD) };
                 } else {
                     LOG.push(Ev::BadDrop { addr: self as *const _ as usize, magic: s.magic });
@@ -118,6 +171,6 @@ pub const ZID: u32 = 0xFFFF_FF00;
 pub struct Zh;
 impl Drop for Zh {
     fn drop(&mut self) {
-        LOG.push(Ev::Drop { id: ZID, addr: self as *const _ as usize });
+        LOG.push(Ev::Drop { id: ZID, addr: self as *const _ as usize, tid: crate::ev::tid() });
     }
 }
